@@ -184,8 +184,13 @@ func Gen(t *rapid.T, used map[string]bool, from string, to string, big int) Spec
 	if dens > 0 {
 		maxRunes = 45
 	}
+	// a subject that ends in digits looks, at the end of the transfer's title field, like the offset field behind it
+	suffix := ""
+	if rapid.IntRange(0, 7).Draw(t, "subj_digits") == 0 {
+		suffix = rapid.SampledFrom([]string{" 0", "0", " 00", " 100", "-0", " 7", " 0 0"}).Draw(t, "subj_suffix")
+	}
 	for {
-		s.Subject = prec + Text(t, "subject", maxRunes, dens)
+		s.Subject = prec + Text(t, "subject", maxRunes, dens) + suffix
 		probe := fbb.NewMessage(fbb.Private, from)
 		probe.SetSubject(s.Subject)
 		if l := len(probe.Header.Get("Subject")); l > 0 && l <= 128 {
